@@ -242,6 +242,20 @@ func Child(c *run.Ctx, name string) {
 					c.Violation("tag-row-value/"+rq.Proto, fmt.Sprintf("tag row %q of span %s has value %q, the attribute is %q", tags.MKey[t], id, tags.MVal[t], v), replay)
 				}
 			}
+			seenKeys := make([]string, 0, len(seen))
+			for k := range seen {
+				seenKeys = append(seenKeys, k)
+			}
+			sort.Strings(seenKeys)
+			for _, k := range seenKeys {
+				if _, ok := exp[k]; !ok {
+					c.Cover("tag rows beyond the flattened attributes (key)", k, 1)
+					if !derivedTagKeys[k] {
+						c.Violation("tag-row-for-absent-attribute/"+rq.Proto, fmt.Sprintf("span %s has a tag row %q = %q, but neither the span nor its resource carries that attribute (attributes: %v)", id, k, clip(tagVal(&tags, tagRows[id], k), 60), gen.SortedKeys(exp)), replay)
+						break
+					}
+				}
+			}
 			for _, k := range gen.SortedKeys(exp) {
 				if seen[k] != 1 {
 					c.Violation("tag-row-per-attribute/"+rq.Proto, fmt.Sprintf("flattened attribute %q of span %s has %d tag rows (exactly one expected)", k, id, seen[k]), replay)
@@ -324,6 +338,18 @@ func Child(c *run.Ctx, name string) {
 		}
 		c.EndCase(gi)
 	}
+}
+
+// derivedTagKeys: tag rows the writer derives from the span itself rather than from an attribute
+var derivedTagKeys = map[string]bool{"name": true, "local_endpoint_service_name": true, "remote_endpoint_service_name": true, "service.name": true, "remoteService.name": true}
+
+func tagVal(tags *wmodel.TempoTag, rows []int, key string) string {
+	for _, t := range rows {
+		if tags.MKey[t] == key {
+			return tags.MVal[t]
+		}
+	}
+	return ""
 }
 
 func fieldClass(d []string) string {
